@@ -234,6 +234,9 @@ func ScanFooter(options *StoreOptions, fref *FileRef, fileName string,
 				return nil, err
 			}
 
+			// Each child footer is owned, with 1 ref-count, by its parent.
+			f.initChildRefs()
+
 			// json.Unmarshal would have just loaded the map.
 			// We now need to load each segment into the map.
 			// Also recursively load child footer segment stacks.
@@ -435,7 +438,26 @@ func (f *Footer) DecRef() {
 		f.SegmentLocs = nil
 		f.ss = nil
 	}
+	releaseChildren := f.refs == 0
 	f.m.Unlock()
+
+	if releaseChildren {
+		// Release the ref-count that this footer holds on each of its
+		// child footers; a child footer stays alive as long as it is in
+		// use as a snapshot of its own (see ChildCollectionSnapshot).
+		for _, childFooter := range f.ChildFooters {
+			childFooter.DecRef()
+		}
+	}
+}
+
+// initChildRefs recursively gives the child footers of a footer that
+// was just decoded their initial ref-count, which the parent owns.
+func (f *Footer) initChildRefs() {
+	for _, childFooter := range f.ChildFooters {
+		childFooter.refs = 1
+		childFooter.initChildRefs()
+	}
 }
 
 // Length returns the length of this footer
